@@ -47,6 +47,12 @@ inductive Shape (var : XmlVar) : Val → Prop
       (∀ y ∈ ys, y.isArray = false) → Shape var (.list ys)
   | tokLists (yss : List Val) : var.tokens = true → var.listElement = true →
       (∀ y ∈ yss, ∃ ys, y = .list ys) → Shape var (.list yss)
+  /-- one item of a list var, handed over separately by the roll of a `sequence` group -/
+  | seqItem {y : Val} : var.tokens = false → var.listElement = true → y.isArray = false →
+      Shape var y
+
+/-- the fuel `convert_value` leaves for the items of a field value: one hop more for a list -/
+def chunkFuel (x : Val) (f : Nat) : Nat := if x.isArray then f else f + 1
 
 /-- generator of one item -/
 def itemGen (e : BEnv) (Γ : Ctx) (cfg : SerCfg) (var : XmlVar) (ns : Option Str) (f : Nat) (y : Val) :
@@ -62,28 +68,39 @@ theorem genValue_chunk (e : BEnv) (Γ : Ctx) (cfg : SerCfg) {m : XmlMeta} {var :
     (hf : ElemFactsN m var) {x : Val} (hs : Shape var x) (hx : x ≠ .none ∨ var.nillable = true)
     (ns : Option Str) (f : Nat) :
     genValue e Γ cfg (f + 1) x var ns =
-      ((itemsN var x).mapM (itemGen e Γ cfg var ns (if var.listElement then f else f + 1))).map
+      ((itemsN var x).mapM (itemGen e Γ cfg var ns (chunkFuel x f))).map
         List.flatten := by
-  have hgen_t : var.tokens = true → itemGen e Γ cfg var ns (if var.listElement then f else f + 1) =
+  have hgen_t : var.tokens = true → itemGen e Γ cfg var ns (chunkFuel x f) =
       fun y => convertElement var.toVarCore y := by
     intro ht; funext y; simp [itemGen, ht]
-  have hgen_f : var.tokens = false → itemGen e Γ cfg var ns (if var.listElement then f else f + 1) =
-      fun y => genValue e Γ cfg (if var.listElement then f else f + 1) y var ns := by
+  have hgen_f : var.tokens = false → itemGen e Γ cfg var ns (chunkFuel x f) =
+      fun y => genValue e Γ cfg (chunkFuel x f) y var ns := by
     intro ht; funext y; simp [itemGen, ht]
   cases hs with
   | none ht hl =>
     have hn : var.nillable = true := by rcases hx with h | h; exact absurd rfl h; exact h
-    simp [itemsN, hn, itemGen, ht, hl, Except.map, bind, Except.bind, pure, Except.pure]
+    simp [itemsN, hn, itemGen, ht, chunkFuel, Val.isArray, Except.map, bind, Except.bind, pure,
+      Except.pure]
     cases genValue e Γ cfg (f + 1) Val.none var ns <;> simp
   | prim p ht hl =>
-    simp [itemsN, itemGen, ht, hl, Except.map, bind, Except.bind, pure, Except.pure]
+    simp [itemsN, itemGen, ht, chunkFuel, Val.isArray, Except.map, bind, Except.bind, pure, Except.pure]
     cases genValue e Γ cfg (f + 1) (Val.prim p) var ns <;> simp
   | obj c fs ht hl =>
-    simp [itemsN, itemGen, ht, hl, Except.map, bind, Except.bind, pure, Except.pure]
+    simp [itemsN, itemGen, ht, chunkFuel, Val.isArray, Except.map, bind, Except.bind, pure, Except.pure]
     cases genValue e Γ cfg (f + 1) (Val.obj c fs) var ns <;> simp
+  | seqItem ht hl hy =>
+    have hitems : itemsN var x = [x] := by
+      cases x with
+      | none =>
+        have hn : var.nillable = true := by rcases hx with h | h; exact absurd rfl h; exact h
+        simp [itemsN, hn]
+      | list xs => simp [Val.isArray] at hy
+      | _ => rfl
+    simp [hitems, itemGen, ht, chunkFuel, hy, Except.map, bind, Except.bind, pure, Except.pure]
+    cases genValue e Γ cfg (f + 1) x var ns <;> simp
   | list xs ht hl _ =>
     rw [hgen_f ht]
-    simp only [itemsN, ht, Bool.false_eq_true, if_false, hl, if_true]
+    simp only [itemsN, ht, Bool.false_eq_true, if_false, hl, if_true, chunkFuel, Val.isArray]
     simp [genValue, hf.mixed, ht, VarCore.isText, VarCore.isElements, hf.isElem, Val.isArray, hl,
       bind, Except.bind, pure, Except.pure, Except.map]
   | toks ys ht hl hys =>
@@ -130,13 +147,13 @@ theorem varGN (e : BEnv) (Γ : Ctx) (cfg : SerCfg) (M : NsMap) (ns : Option Str)
     {m : XmlMeta} {var : XmlVar} (hf : ElemFactsN m var) {x : Val} (hs : Shape var x)
     (hx : x ≠ .none ∨ var.nillable = true) (f : Nat)
     (hitems : ∀ y ∈ itemsN var x, ∃ evs,
-      itemGen e Γ cfg var ns (if var.listElement then f else f + 1) y = .ok evs ∧
+      itemGen e Γ cfg var ns (chunkFuel x f) y = .ok evs ∧
       SubW M (isDatatype Γ) evs (treeSax (tr y))) :
     ∃ evs, genField e Γ cfg (f + 1) ns (var, x) = .ok evs ∧
       BodyW M (isDatatype Γ) evs (treesSax (chunkTrees M tr var x)) ∧
       (chunkTrees M tr var x = [] → evs = []) := by
   obtain ⟨parts, hparts, hall⟩ := mapM_exists
-    (itemGen e Γ cfg var ns (if var.listElement then f else f + 1))
+    (itemGen e Γ cfg var ns (chunkFuel x f))
     (fun y evs => SubW M (isDatatype Γ) evs (treeSax (tr y))) (itemsN var x) hitems
   have hinner : genValue e Γ cfg (f + 1) x var ns = .ok parts.flatten := by
     rw [genValue_chunk e Γ cfg hf hs hx ns f, hparts]; rfl
